@@ -46,4 +46,8 @@ theorem ser_denotes (v w : TVal) (hv : wf v = true) (hw : wf w = true) (ht : v.t
 /-- non-vacuity: a concrete schema and value satisfy the hypotheses -/
 example : let S : Schema := [{ fields := [{ id := 1, req := .dflt, ty := .list false (.base .i32) }] }]
     S.ok = true ∧ hasTy S (.strct 0) (.st [.lst false [.sc 7, .sc 8]] []) = true := by decide
+/-- the hand-written model of the encoder and size functions (`appendStruct`, `appendAny`, `EncodedSize`, `encodedMapSize`, `encodedListSize`, the two header writers, `Append`, `EncodedSize`) was written from, and validated against, code with exactly this
+    control structure (guards, switches, loops, returns, call sequence): regenerated fingerprint =
+    committed fingerprint of the unchanged tree -/
+theorem model_written_from_this_code : Generated.facts.encoderSkeleton = Skeleton.encoder := Instances.skeleton_encoder
 end Frugal.C02
